@@ -153,6 +153,13 @@ def dumpstructs(ctx, n):
             # parse-from-bytes form must agree with the instance form
             try:
                 out2 = dumpstruct(cs.T, inp[:r[2]], output="string", color=color)
+                # the class form shows the bytes it was given (padding and unassigned bits as they are in the input),
+                # not a re-serialisation of the parsed value
+                ctx.event("dumpstruct_class_form_vs_input_bytes" if body != inp[:r[2]] else "dumpstruct_class_form")
+                if ref_hexdump(inp[:r[2]]) not in ANSI.sub("", out2):
+                    ctx.violation("dumpstruct", "dumpstruct-class-form-does-not-show-the-bytes-it-was-given",
+                                  engine.case_detail(case, cfg=cfgd, data=inp, color=color, got=ANSI.sub("", out2),
+                                                     want=ref_hexdump(inp[:r[2]])))
                 if ANSI.sub("", out2).split("\n\n", 1)[-1] != plain.split("\n\n", 1)[-1] and body == inp[:r[2]]:
                     ctx.violation("dumpstruct", "dumpstruct-class-form-differs-from-instance-form",
                                   engine.case_detail(case, cfg=cfgd, data=inp, color=color))
@@ -233,10 +240,15 @@ def packs(ctx, rng, n):
             if utils.unpack(want, bits, sp, sign=False) != int.from_bytes(want, order):
                 ctx.violation("pack", "unsigned-unpack-differs", {"value": v, "bits": bits, "endian": sp})
             # size-less pack picks the minimal width
-            if v >= 0:
-                g2 = utils.pack(v, endian=sp)
-                if int.from_bytes(g2, order) != v:
-                    ctx.violation("pack", "sizeless-pack-not-invertible", {"value": v, "endian": sp})
+            # (also for negative values, with room for the sign: restricting this to v >= 0 had hidden defect 66)
+            for v2 in (v, -abs(v) - 1, -abs(v), -(1 << (bits - 1)) - 1, -(1 << (bits - 1))):
+                g2 = utils.pack(v2, endian=sp)
+                ctx.event("sizeless_packs")
+                minimal = ((v2.bit_length() if v2 >= 0 else (~v2).bit_length() + 1) + 7) // 8
+                if int.from_bytes(g2, order, signed=v2 < 0) != v2 or len(g2) != minimal or \
+                        utils.unpack(g2, endian=sp, sign=v2 < 0) != v2:
+                    ctx.violation("pack", "sizeless-pack-not-invertible-or-not-minimal",
+                                  {"value": v2, "endian": sp, "got": g2.hex(), "want_bytes": minimal})
         except Exception as e:  # noqa: BLE001
             ctx.violation("pack", f"pack-raises:{type(e).__name__}", {"value": v, "bits": bits, "endian": sp,
                                                                       "error": lib.exc_sig(e)})
